@@ -56,6 +56,8 @@ mod guard;
 mod internal;
 mod pointers;
 mod sync;
+#[cfg(circ_verif)]
+pub(crate) mod verif_shim;
 
 pub use default::*;
 pub use epoch::*;
